@@ -34,7 +34,7 @@ type c20case struct {
 
 func (k c20case) key() string { b, _ := json.Marshal(k); return string(b) }
 
-var c20TaskNames = []string{"build", "test", "lint", "zeta", "alpha", "default", "deploy", "Mid"}
+var c20TaskNames = []string{"build", "test", "lint", "zeta", "alpha", "default", "deploy", "Mid", "default_x", "émile"}
 var c20VarNames = []string{"VERSION", "NAME", "OUT", "flag", "Zed"}
 var c20Docs = []string{" 100% of the build", " Build the thing", "Run tests  ", "  padded  ", " ünï çødé", "x", " # hash inside", " with : punctuation, and (parens)", ""}
 
@@ -83,6 +83,8 @@ func c20Gen(r *core.Rng) c20case {
 			v := ""
 			if len(k.Vars) > 0 && r.Chance(40) {
 				v = core.Pick(r, k.Vars)[0]
+			} else if r.Chance(15) {
+				v = "-"
 			}
 			t.UseVar = append(t.UseVar, v)
 		}
@@ -112,14 +114,26 @@ func (k c20case) varValue(name string) string {
 // cmdText returns the command as written (tpl=true) or after substitution.
 func (k c20case) cmdText(t c20task, i int, logPath string, tpl bool) string {
 	tag := ""
-	if v := t.UseVar[i]; v != "" {
+	if v := t.UseVar[i]; v != "" && v != "-" {
 		if tpl {
 			tag = ".{{." + v + "}}"
 		} else {
 			tag = "." + k.varValue(v)
 		}
 	}
-	return fmt.Sprintf("printf '%%s\\n' %s.%d >> %s && printf '%%s\\n' 'O.%s.%d%s' && printf '%%s\\n' 'E.%s.%d' >&2", t.Name, i, logPath, t.Name, i, tag, t.Name, i)
+	if t.UseVar[i] == "-" {
+		// a command that prints nothing at all
+		return fmt.Sprintf("printf '%%s\\n' %s.%d >> %s", c20ascii(t.Name), i, logPath)
+	}
+	return fmt.Sprintf("printf '%%s\\n' %s.%d >> %s && printf '%%s\\n' 'O.%s.%d%s \"q\" \\b' && printf '%%s\\n' 'E.%s.%d' >&2", c20ascii(t.Name), i, logPath, c20ascii(t.Name), i, tag, c20ascii(t.Name), i)
+}
+
+// c20ascii: command text must be ASCII, task names need not be.
+func c20ascii(name string) string {
+	if name == "émile" {
+		return "emile"
+	}
+	return name
 }
 
 func (k c20case) text(logPath string) string {
@@ -247,6 +261,9 @@ func c20Judge(c *core.Ctx, k c20case, res *core.ShardResult) (vs []core.Violatio
 		seenT := map[string]bool{}
 		for _, l := range log {
 			name := l[:strings.LastIndex(l, ".")]
+			if name == "emile" {
+				name = "émile"
+			}
 			if !seenT[name] {
 				seenT[name] = true
 				execOrder = append(execOrder, name)
@@ -267,6 +284,10 @@ func c20Judge(c *core.Ctx, k c20case, res *core.ShardResult) (vs []core.Violatio
 				bad("skipped-flag", "round %d: task %s is reported as run but none of its commands ran", round, r.Task)
 				return false
 			}
+			if r.Skipped && t.File == "" {
+				bad("skipped-flag", "round %d: task %s has no file dependency (it always runs) but is reported skipped", round, r.Task)
+				return false
+			}
 			if r.Skipped || t.NCmd == 0 {
 				if len(r.Results) != 0 {
 					bad("commands-of-skipped-task", "round %d: task %s (skipped=%v, %d commands) lists %d command results", round, r.Task, r.Skipped, t.NCmd, len(r.Results))
@@ -284,11 +305,14 @@ func c20Judge(c *core.Ctx, k c20case, res *core.ShardResult) (vs []core.Violatio
 			for i, cr := range r.Results {
 				wantCmd := k.cmdText(*t, i, sb.Log, false)
 				tag := ""
-				if v := t.UseVar[i]; v != "" {
+				if v := t.UseVar[i]; v != "" && v != "-" {
 					tag = "." + k.varValue(v)
 				}
-				wantOut := fmt.Sprintf("O.%s.%d%s\n", t.Name, i, tag)
-				wantErr := fmt.Sprintf("E.%s.%d\n", t.Name, i)
+				wantOut := fmt.Sprintf("O.%s.%d%s \"q\" \\b\n", c20ascii(t.Name), i, tag)
+				wantErr := fmt.Sprintf("E.%s.%d\n", c20ascii(t.Name), i)
+				if t.UseVar[i] == "-" {
+					wantOut, wantErr = "", ""
+				}
 				if cr.Cmd != wantCmd || cr.Stdout != wantOut || cr.Stderr != wantErr || cr.Status != 0 {
 					bad("command-record", "round %d: task %s command %d is reported as cmd=%q stdout=%q stderr=%q status=%d; want cmd=%q stdout=%q stderr=%q status=0", round, r.Task, i, cr.Cmd, cr.Stdout, cr.Stderr, cr.Status, wantCmd, wantOut, wantErr)
 					return false
@@ -337,7 +361,7 @@ func c20Judge(c *core.Ctx, k c20case, res *core.ShardResult) (vs []core.Violatio
 			return false
 		}
 		lines := strings.Split(strings.TrimSuffix(inv.Stdout, "\n"), "\n")
-		if len(lines) < 2 || !strings.HasPrefix(lines[0], "Tasks defined in ") || strings.TrimSpace(strings.ReplaceAll(lines[1], "\t", " ")) != "Name Description" {
+		if len(lines) < 2 || !strings.HasPrefix(lines[0], "Tasks defined in ") || strings.Join(strings.Fields(lines[1]), " ") != "Name Description" {
 			bad("show-lists-tasks", "%s: unexpected header %q", what, core.Trunc(inv.Stdout, 200))
 			return false
 		}
@@ -409,7 +433,11 @@ func c20Judge(c *core.Ctx, k c20case, res *core.ShardResult) (vs []core.Violatio
 		want := k.closure([]string{"default"})
 		ran := map[string]bool{}
 		for _, l := range logD {
-			ran[l[:strings.LastIndex(l, ".")]] = true
+			n := l[:strings.LastIndex(l, ".")]
+			if n == "emile" {
+				n = "émile"
+			}
+			ran[n] = true
 		}
 		for n := range want {
 			if k.task(n).NCmd > 0 && !ran[n] {
